@@ -598,10 +598,21 @@ static void do_rpregion(const J& g, W& w) {
     r.init(Vec2{0, 0}, 1, &width, &off, tol, 1000, &t);
     std::vector<Sec> secs;
     Vec2 start = {0, 0}, grad = {1, 0};
+    bool ramp = g.has("o1") && g["secs"].size() == 1;
+    double off1 = ramp ? (double)g["o1"].i() / 1000.0 : off;
     for (size_t i = 0; i < g["secs"].size(); i++) {
         Sec s = sec_of(g["secs"][i], start, grad);
         secs.push_back(s);
-        robust_call(r, g["secs"][i], NULL, NULL);
+        if (ramp) {
+            // single-section cases only: the offset runs linearly from o to o1 along the section
+            Interpolation O = {};
+            O.type = InterpolationType::Linear;
+            O.initial_value = off;
+            O.final_value = off1;
+            robust_call(r, g["secs"][i], NULL, &O);
+        } else {
+            robust_call(r, g["secs"][i], NULL, NULL);
+        }
         start = s.f(1.0);
         grad = s.df(1.0);
     }
@@ -628,7 +639,7 @@ static void do_rpregion(const J& g, W& w) {
             double u = (double)i / M;
             Vec2 d = s.df(u);
             Vec2 n = Vec2{-d.y, d.x} * (1.0 / (d.length() + 1e-300));
-            cen.push_back(s.f(u) + n * off);
+            cen.push_back(s.f(u) + n * (off + (off1 - off) * u));
         }
     double hw = width / 2;
     if (ends == "halfwidth" && !cen.empty()) {
